@@ -241,6 +241,10 @@ func (e *evalCtx) ident(name string) sval {
 	if v, ok := e.binds[name]; ok {
 		return v
 	}
+	// a variable that was renamed since the contracts were written (names.go)
+	if a, ok := e.t.g.alias[e.t.g.fnKey(e.fn)][name]; ok {
+		name = a
+	}
 	switch name {
 	case "true":
 		return boolv("true")
